@@ -9,7 +9,7 @@
    [lookup (abs t) s] reads the value of simplex s in the abstract complex of the trie t; with [wf t] the keys of [abs t] are
    pairwise different sorted words, so "lookup = flag for every s" says the complex is exactly the flag complex. *)
 From Coq Require Import ZArith List Bool.
-Require Import Simplex Trie C04_Model C04_Proofs.
+Require Import Simplex Trie C04_Model C04_Proofs C04_Blockers.
 Import ListNotations.
 Open Scope Z_scope.
 
@@ -100,19 +100,70 @@ Example C04_example_hypotheses :
              lookup (abs (tree (expansion st 3))) [-3; 2; 7; 100] = Some 5 /\ dimn (expansion st 3) = 3.
 Proof. split; [reflexivity | split; [reflexivity|]]. eexists. split; [reflexivity|]. split; vm_compute; reflexivity. Qed.
 
-(* ---- statements compared on every run but not proved (B) ---- *)
-(* blockers that never block give the expansion (missing: the invariant of the reverse sibling loop - when sigma is visited,
-   every facet of a candidate sigma+y lies in a subtree that is already complete) *)
-Definition C04_blockers_never_block_full : Prop :=
-  forall (G : graph) (st : state) (d : Z), edges_okb G = true -> ins_graph G = Some st -> 2 <= d ->
+(* A3 + B1: expansion_with_blockers (repaired: no-op for max_dim <= 1).  The algorithm model looks the facets of a candidate
+   up in the tree under construction (reverse loops); whatever function B of the simplices obeys the rule
+   "B(sigma+y) = the maximum of B(sigma) and the B(tau+y), tau facet of sigma, if all of these exist, the dimension allows it
+   and the blocker lets it pass", is closed under prefixes, lives on sorted words and agrees with the tree of the graph on
+   vertices and edges, IS the result *)
+Theorem C04_blockers_compute_the_rule : forall (P : simplex -> V -> bool) (d : Z) (B : simplex -> option V),
+  (forall sigma w y, B sigma = Some w -> (2 <= length sigma)%nat ->
+     B (sigma ++ [y]) = if lenZ sigma + 1 <=? d + 1
+                        then match candB B sigma w y with
+                             | Some f => if P (sigma ++ [y]) f then None else Some f
+                             | None => None end
+                        else None) ->
+  (forall sigma q, sigma <> [] -> B sigma = None -> B (sigma ++ q) = None) ->
+  (forall rho, B rho <> None -> ssortedb rho = true) ->
+  forall st, wf (tree st) -> 2 <= d ->
+  (forall rho, (length rho <= 2)%nat -> find_val rho (tree st) = B rho) ->
+  (forall rho, (3 <= length rho)%nat -> find_val rho (tree st) = None) ->
+  let r := fst (exp_blockers P true st d) in
+  wf (tree r) /\ forall rho, find_val rho (tree r) = B rho.
+Proof. exact blockers_rule. Qed.
+Print Assumptions C04_blockers_compute_the_rule.
+
+(* with a deterministic blocker predicate the result is [bflag G d P] ... *)
+Theorem C04_blockers_maximal : forall (G : graph) (st : state) (d : Z) (P : simplex -> V -> bool),
+  edges_okb G = true -> ins_graph G = Some st -> 2 <= d ->
+  let r := fst (exp_blockers P true st d) in
+  wf (tree r) /\ forall s, lookup (abs (tree r)) s = bflag G d P s.
+Proof. exact blockers_maximal. Qed.
+Print Assumptions C04_blockers_maximal.
+(* ... which is a subcomplex of flag G d without blocked simplex of dimension >= 2 ... *)
+Theorem C04_bflag_is_subcomplex : forall G d P s, bflag G d P s <> None ->
+  flag G d s <> None /\ (forall phi, In phi (facets s) -> phi <> [] -> bflag G d P phi <> None) /\
+  (3 <= lenZ s -> P s (fval G s) = false).
+Proof. exact bflag_is_subcomplex. Qed.
+Print Assumptions C04_bflag_is_subcomplex.
+(* ... and contains every such subcomplex: the largest one *)
+Theorem C04_bflag_largest : forall G d P (K : simplex -> bool),
+  (forall s, K s = true -> flag G d s <> None) ->
+  (forall s phi, K s = true -> In phi (facets s) -> phi <> [] -> K phi = true) ->
+  (forall s, K s = true -> 3 <= lenZ s -> P s (fval G s) = false) ->
+  forall s, K s = true -> bflag G d P s <> None.
+Proof. exact bflag_largest. Qed.
+Print Assumptions C04_bflag_largest.
+(* A3: blockers that never block give the expansion *)
+Theorem C04_blockers_never_block_eq_expansion : forall (G : graph) (st : state) (d : Z),
+  edges_okb G = true -> ins_graph G = Some st -> 2 <= d ->
   let r := fst (exp_blockers (fun _ _ => false) true st d) in
-  (forall s, lookup (abs (tree r)) s = lookup (abs (tree (expansion st d))) s) /\ dimn r = dimn (expansion st d).
-(* with a deterministic blocker the result is the subcomplex of flag G d given by the rule "a simplex of dimension >= 2 is
-   kept iff it is not blocked and all its facets are kept" ([bflag]; that rule determines the complex, which is the largest
-   subcomplex of the flag complex without blocked simplex whose candidates were all submitted) *)
-Definition C04_blockers_maximal_full : Prop :=
+  wf (tree r) /\ (forall s, lookup (abs (tree r)) s = flag G d s) /\
+  (forall s, lookup (abs (tree r)) s = lookup (abs (tree (expansion st d))) s).
+Proof. exact blockers_never_block. Qed.
+Print Assumptions C04_blockers_never_block_eq_expansion.
+(* non-vacuity of the blocker theorems: on the example graph, blocking by hash keeps one triangle out and with it the tetrahedron *)
+Example C04_example_blockers :
+  exists st, ins_graph C04_example_graph = Some st /\
+             lookup (abs (tree (fst (exp_blockers (blocks (BDimGe 3)) true st 3)))) [-3; 2; 7] = Some 5 /\
+             lookup (abs (tree (fst (exp_blockers (blocks (BDimGe 3)) true st 3)))) [-3; 2; 7; 100] = None /\
+             bflag C04_example_graph 3 (blocks (BDimGe 3)) [-3; 2; 7; 100] = None.
+Proof. eexists. split; [reflexivity|]. repeat split; vm_compute; reflexivity. Qed.
+
+(* ---- statements compared on every run but not proved (B) ---- *)
+(* dimension() after expansion_with_blockers is the exact dimension (the tree is proved, the dimension_ counter is compared) *)
+Definition C04_blockers_dimension_full : Prop :=
   forall (G : graph) (st : state) (d : Z) (P : simplex -> V -> bool), edges_okb G = true -> ins_graph G = Some st -> 2 <= d ->
-  forall s, lookup (abs (tree (fst (exp_blockers P true st d)))) s = bflag G d P s.
+  let r := fst (exp_blockers P true st d) in dimn r = height_t (Node (tree r)).
 (* edge-by-edge: in filtration order the tree is the flag complex of the edges inserted so far; in any admissible order it
    is so after make_filtration_non_decreasing (missing: the invariant of compute_punctual_expansion over all nodes labelled u) *)
 Definition C04_flag_all (G : graph) (d : Z) (s : simplex) : option V :=
